@@ -47,11 +47,24 @@ pub fn gen_case(seed: u64, focus: &str) -> Value {
         _ => h.range(1, 40),
     };
     let start_mode = *h.pick(&["empty", "mcf", "mcf", "mcf_improved", "greedy"]);
-    json!({
+    let mut case = json!({
         "sim": "b", "seed": seed, "focus": focus, "mode": mode, "instance": instance, "hash_key": hash_key,
         "workers": workers, "ops_seed": h.next_u64(), "n_ops": n_ops, "start": start_mode, "gen": summary,
         "segment_limit": *h.pick(&[0i64, 1800, 10800]), "overhead_threshold": *h.pick(&[-1i64, 0, 600]),
-    })
+    });
+    // process history (see prelude.rs): walks often, operation histories sometimes, small-scope batches never
+    let share = match mode {
+        "walk" => Some((1, 3)),
+        "ops" | "trans" => Some((1, 8)),
+        _ => None,
+    };
+    if let Some((a, b)) = share {
+        let mut pr = rng.fork(3);
+        if let Some(p) = crate::prelude::gen_prelude(&mut pr, &case["instance"], &opts, a, b) {
+            case["prelude"] = p;
+        }
+    }
+    case
 }
 
 pub fn case_candidates(case: &Value) -> Vec<Value> {
@@ -1240,6 +1253,13 @@ pub fn exec_case(case: &Value, want: &BTreeSet<String>) -> Value {
 }
 
 fn run_inner(case: &Value, inst: RefInstance, _want: &BTreeSet<String>) -> Value {
+    let had_prelude = match case.get("prelude").filter(|p| p.is_object()) {
+        Some(p) => {
+            crate::prelude::run(p, false);
+            true
+        }
+        None => false,
+    };
     let nw = match guarded(|| load_rolling_stock_problem_instance_from_json(case["instance"].clone())) {
         Ok(n) => n,
         Err(p) => return json!({"outcome": "not_evaluated", "panic": p, "violations": [], "digest": ""}),
@@ -1267,6 +1287,9 @@ fn run_inner(case: &Value, inst: RefInstance, _want: &BTreeSet<String>) -> Value
     };
     let focus = case["focus"].as_str().unwrap_or("C09").to_string();
     let mode = case["mode"].as_str().unwrap_or("ops").to_string();
+    if had_prelude {
+        cx.probe("another_instance_solved_before_on_the_same_threads");
+    }
     let mut s = start_state(&mut cx, case["start"].as_str().unwrap_or("empty"));
     {
         let sn = snap(&cx.ad, &s);
